@@ -3,6 +3,7 @@
   accepts every run of the daemon-level model.
 -/
 import Rbgp.Policy.ProofsD
+import Rbgp.Policy.ProofsStored
 namespace Rbgp.Policy
 open Rbgp.Policy
 
@@ -295,28 +296,51 @@ theorem holderObs_listing (env : RegexEnv) (d : Dir) (rs : List Route) (a : Opti
   cases a <;> rfl
 
 /-- a holder whose policies are the table's evaluates as its names resolve -/
-theorem checkHolder_ok (env : RegexEnv) {t : Table} (hi : Inv false t) (d : Dir) (rs : List Route) (a : Option Assign)
+theorem holderFails_ok (env : RegexEnv) {t : Table} (hi : Inv false t) (d : Dir) (rs : List Route) (a : Option Assign)
     (hc : ∀ x, a = some x → ∀ p ∈ x.pols, alLookup p.name t.pols = some p) :
-    DSpec.checkHolder env d t.dump rs (holderObs env d rs a) = none := by
+    DSpec.holderFails env d t.dump rs (holderObs env d rs a) = [] := by
   cases a with
   | none => rfl
   | some a =>
-      simp only [holderObs, Option.map_some, DSpec.checkHolder, List.length_map, ne_eq, not_true_eq_false, if_false,
-        resolveAsg_closed hi a (hc a rfl)]
-      apply firstSome_none
-      intro x hx j
+      simp only [holderObs, Option.map_some, DSpec.holderFails, List.length_map, ne_eq, not_true_eq_false, if_false,
+        resolveAsg_closed hi a (hc a rfl), rpkiFlag_ok a, List.nil_append]
+      apply allFails_nil
+      intro x hx
       obtain ⟨r, p⟩ := x
       have := mem_zip_map (probe env d a) rs r p hx
       subst this
       exact checkProbe_closed env hi d a (hc a rfl) r
 
-theorem checkPeers_ok (env : RegexEnv) {t : Table} (hi : Inv false t) (rs : List Route) :
+theorem peersFails_ok (env : RegexEnv) {t : Table} (hi : Inv false t) (rs : List Route) :
     ∀ (l : List (Addr × Option Assign)), (∀ e ∈ l, ∀ x, e.2 = some x → ∀ p ∈ x.pols, alLookup p.name t.pols = some p) →
-    DSpec.checkPeers env t.dump rs (l.map (fun p => (p.1, holderObs env .exp rs p.2))) = none
+    DSpec.peersFails env t.dump rs (l.map (fun p => (p.1, holderObs env .exp rs p.2))) = []
   | [], _ => rfl
   | e :: r, h => by
-      simp only [List.map_cons, DSpec.checkPeers, checkHolder_ok env hi .exp rs e.2 (h e (by simp))]
-      exact checkPeers_ok env hi rs r (fun e' he' => h e' (by simp [he']))
+      simp only [List.map_cons, DSpec.peersFails, holderFails_ok env hi .exp rs e.2 (h e (by simp)), List.nil_append]
+      exact peersFails_ok env hi rs r (fun e' he' => h e' (by simp [he']))
+
+/-- what a daemon call asked of the table is listed afterwards -/
+theorem drequest_ok (env : RegexEnv) {s : DState} (hd : DInv false s) (op : DOp) (hd' : DInv false (s.step env op).1) :
+    (DSpec.requestOf op).elim true (fun o => Spec.requestStored o (s.step env op).2 (s.step env op).1.t.dump) = true := by
+  cases op with
+  | tbl op =>
+      simp only [DSpec.requestOf, Option.elim, DState.step]
+      by_cases hs : isSetStmtOp op = true
+      · simp only [hs, if_true]
+        have hi' := hd'.inv
+        simp only [DState.step, hs, if_true] at hi'
+        exact requestStored_ok env hd.inv op hi'
+      · simp only [hs, Bool.false_eq_true, if_false]
+        cases op <;> rfl
+  | polAdd n ss =>
+      simp only [DSpec.requestOf, Option.elim, DState.step]
+      by_cases hg : peerRefs s n = true
+      · simp only [hg, if_true]; rfl
+      · simp only [hg, Bool.false_eq_true, if_false]
+        have hi' := hd'.inv
+        simp only [DState.step, hg, Bool.false_eq_true, if_false] at hi'
+        exact requestStored_ok env hd.inv (.polAdd n ss) hi'
+  | _ => rfl
 
 /-- the policies a holder named before and after a call are listed unchanged -/
 theorem holderStable_ok (env : RegexEnv) {s : DState} (hd : DInv false s) (op : DOp) (hd' : DInv false (s.step env op).1)
@@ -452,12 +476,15 @@ theorem checkDSteps_ok (env : RegexEnv) (rs : List Route) : ∀ (ops : List DOp)
         simp only [holderObs_listing, hd'.pimp, hd'.pexp, Table.dump]
         simp
       -- clauses 7-9: every holder evaluates as its names resolve
-      have c7 := checkHolder_ok env hd'.inv .imp rs (s.step env op).1.pubImp (fun x hx => hd'.pub_closed .imp x hx)
-      have c8 := checkHolder_ok env hd'.inv .exp rs (s.step env op).1.pubExp (fun x hx => hd'.pub_closed .exp x hx)
-      have c9 := checkPeers_ok env hd'.inv rs (s.step env op).1.peers hd'.peers
+      have c0 := drequest_ok env hd op hd'
+      have c00 := heldCurrent_ok hd'.inv
+      have c7 := holderFails_ok env hd'.inv .imp rs (s.step env op).1.pubImp (fun x hx => hd'.pub_closed .imp x hx)
+      have c8 := holderFails_ok env hd'.inv .exp rs (s.step env op).1.pubExp (fun x hx => hd'.pub_closed .exp x hx)
+      have c9 := peersFails_ok env hd'.inv rs (s.step env op).1.peers hd'.peers
       simp only [drunOps, DState.obs, DSpec.checkDSteps]
       simp only [peersObs] at c2 c5 ih
-      simp only [c1, c2, c3, c4, c5, c6, c7, c8, c9, Bool.false_eq_true, if_false]
+      simp only [c0, c00, c1, c2, c3, c4, c5, c6, c7, c8, c9, Bool.not_true, Bool.false_eq_true, if_false, List.append_nil,
+        Spec.pickFail, List.find?, List.head?]
       exact ih
 
 theorem lookupPeer_initObs (a : Addr) : ∀ (l : List Addr),
